@@ -412,13 +412,8 @@ def run(ctx):
     cfgs = [(kind, dk, t) for t in tabs for kind in "MF" for dk in ("none", "empty", "populated")]
     rng = ctx.rng
     cases, impl, lines, seen, classes, roots = [], [], [], set(), {}, []
-    fixed = [
-        ("M", ["a/hidden", "z"], [("a", ["x"]), ("a/b", ["x"])], []),
-        ("M", None, [("a/b", [])], []),
-        ("M", [], [("a/b", [])], []),
-        ("F", ["a/hidden"], [("a", ["b/y"]), ("a/b", ["x"])], [("s", "a/b/n", b"1", "u0", None, None), ("r", "a/b/x")]),
-        ("M", ["z"], [("c", ["d/w"]), ("c/d", [])], [("d", "c/d", False), ("s", "c/d/n", b"22", "u1", None, None)]),
-    ]
+    fixed = [(c["part"], c["default"], [(p, f) for p, f in c["table"]], [Y.op_unjson(o) for o in c["ops"]])
+             for c in Y.load_corpus("C14") if c.get("kind") == "mt"]
     probe_recipes_key(ctx)
     t0, rounds, done = time.time(), 0, 0
     while True:
